@@ -610,6 +610,58 @@ def _space_fluent(out, tier, seed):
                     sink.cases, sink.nontrivial, time.time() - t0, sink.samples, sink.failures)
 
 
+def _space_batched(out, tier, seed):
+    """fluent reductions with a batch size: the author hands over ONE payload (a callable, no static arguments); the library builds a tree of reducing nodes
+    with different numbers of inputs from it.  Every reducing call must receive exactly the values of that node's inputs, in order, and nothing else."""
+    t0 = time.time()
+    sink = _Sink()
+    nmax = 9 if tier == "quick" else 14
+    for n in range(2, nmax + 1):
+        for b in range(0, min(n, 6) + 2):
+            for keep in (False, True):
+                desc = {"space": "fluent batched reduce", "sources": n, "batch_size": b, "keep_dim": keep,
+                        "program": "from_source([s0..], dims=['s']).reduce(Payload(red), dim='s', batch_size=b, keep_dim=keep)"}
+                sink.cases += 1
+                sink.nontrivial += 1 if 1 < b < n else 0
+                try:
+                    src = fluent.from_source([_F(f"s{i}") for i in range(n)], dims=["s"])
+                    red = _F("red")
+                    red.batchable = True  # what earthkit.workflows.mark.batchable sets; Action.reduce refuses a batch size otherwise
+                    act = src.reduce(fluent.Payload(red), dim="s", batch_size=b, keep_dim=keep)
+                    sinks = list(act.graph().sinks)
+                except Exception as e:  # noqa
+                    if keep and 1 < b < n:
+                        continue  # known finding of C13 (batched reduce with keep_dim crashes while building); not this property's business
+                    sink.fail("C10/fluent/graph-builds", desc, f"building the fluent graph raised {e!r}", CL_LOWER)
+                    continue
+                nodes = _reach(sinks)
+                r = _lower_and_run(sink, nodes, sinks, desc)
+                if r is None:
+                    continue
+                job, sid_of, res, handled = r
+                _check_lowering(sink, nodes, job, desc)
+                leaves_seen = 0
+                for nd in nodes:
+                    if not nd.inputs:
+                        continue
+                    calls = res.get(nd.name, ([], [], None))[0]
+                    if len(calls) != 1:
+                        sink.fail("C10/fluent/batched-reduce-arguments", desc, f"reducing node {sid_of[nd.name]} was called {len(calls)} times", CL_BIND)
+                        continue
+                    _, args, kwargs = calls[0]
+                    want = tuple(_tok(sid_of, nd.inputs[f"input{i}"].parent, nd.inputs[f"input{i}"].name) for i in range(len(nd.inputs))) \
+                        if all(f"input{i}" in nd.inputs for i in range(len(nd.inputs))) else None
+                    if want is None:
+                        continue
+                    if not _same(tuple(args), want) or kwargs:
+                        sink.fail("C10/fluent/batched-reduce-arguments", desc, f"reducing node {sid_of[nd.name]} has {len(nd.inputs)} inputs and was called with {_short(args)} {kwargs or ''}; "
+                                  f"the values of its inputs, in order, are {_short(want)}", CL_BIND)
+    out.add_bounded("fluent batched reductions", "exhaustive enumeration",
+                    f"2..{nmax} source nodes x batch_size 0..min(n,6)+1 x keep_dim: one Payload (recording callable, no static arguments) handed to Action.reduce; graph lowered by the real graph2job and "
+                    "every task run through the real execute_sequence/runner.run; every reducing call compared with the values of that node's inputs. Non-trivial: 1 < batch_size < n.",
+                    sink.cases, sink.nontrivial, time.time() - t0, sink.samples, sink.failures)
+
+
 def _space_gen1(out, tier, seed):
     """generator declared with exactly one output: fluent `yields` of length one, and by hand"""
     t0 = time.time()
@@ -836,6 +888,7 @@ def run(out, tier, seed):
             _space_layouts(out, tier, seed)
             _space_arities(out, tier, seed)
             _space_fluent(out, tier, seed)
+            _space_batched(out, tier, seed)
             _space_gen1(out, tier, seed)
             _space_mismatch(out, tier, seed)
             _space_jobs(out, tier, seed)
